@@ -70,6 +70,15 @@ CHECKS = {
                      "function from inside strings; late binding after a failed first continue.",
                 note="host functions and fallbacks compute the same pure function; unsafe runs are compared turn by turn",
                 technique="TLA+ trace validation (InkHostTrace + InkHostRules) of bound vs fallback runs"),
+    "C13": dict(level=MC, ref="5/C13",
+                text="TLC evaluates MsgRule and NoHandlerRule (InkHostRules) on every recorded call: with a handler, what it "
+                     "receives in a continue equals, as a bag, the messages the no-handler base run raised in that continue "
+                     "plus those raised earlier outside a continue (constructor warning), and the story shows the same lines; "
+                     "without a handler an error makes that continue return Err, stays readable and stops the story, a "
+                     "warning never causes Err and stays readable.",
+                note="message texts compared between runs of the same build only; faults raised by generated constructs "
+                     "(undeclared temp, divert through 0, stray tunnel return, exhausted content, old inkVersion)",
+                technique="TLA+ trace validation (InkHostTrace + InkHostRules) of handler vs no-handler runs"),
 }
 
 NOT_YET = {}
